@@ -383,18 +383,30 @@ func (ctx Ctx) prophIdMethod(f *ast.SelectorExpr, args []ast.Expr) coq.CallExpr 
 	}
 }
 
+// isBuiltinPkg reports whether e names an imported package called name whose
+// import path is one of the built-in imports (a user package that merely has
+// the same name is an ordinary package).
+func (ctx Ctx) isBuiltinPkg(e ast.Expr, name string) bool {
+	id, ok := e.(*ast.Ident)
+	if !ok || id.Name != name {
+		return false
+	}
+	pkgName, ok := ctx.info.Uses[id].(*types.PkgName)
+	return ok && builtinImports[pkgName.Imported().Path()]
+}
+
 func (ctx Ctx) packageMethod(f *ast.SelectorExpr,
 	call *ast.CallExpr) coq.Expr {
 	args := call.Args
 	// TODO: replace this with an import that has all the right definitions with
 	// names that match Go
-	if isIdent(f.X, "filesys") {
+	if ctx.isBuiltinPkg(f.X, "filesys") {
 		return ctx.newCoqCall("FS."+toInitialLower(f.Sel.Name), args)
 	}
-	if isIdent(f.X, "disk") {
+	if ctx.isBuiltinPkg(f.X, "disk") {
 		return ctx.newCoqCall("disk."+f.Sel.Name, args)
 	}
-	if isIdent(f.X, "machine") || isIdent(f.X, "primitive") {
+	if ctx.isBuiltinPkg(f.X, "machine") || ctx.isBuiltinPkg(f.X, "primitive") {
 		switch f.Sel.Name {
 		case "UInt64Get", "UInt64Put", "UInt32Get", "UInt32Put":
 			return ctx.newCoqCall(f.Sel.Name, args)
@@ -425,7 +437,7 @@ func (ctx Ctx) packageMethod(f *ast.SelectorExpr,
 			return coq.CallExpr{}
 		}
 	}
-	if isIdent(f.X, "log") {
+	if ctx.isBuiltinPkg(f.X, "log") {
 		switch f.Sel.Name {
 		case "Print", "Printf", "Println":
 			return coq.LoggingStmt{GoCall: ctx.printGo(call)}
@@ -444,13 +456,13 @@ func (ctx Ctx) packageMethod(f *ast.SelectorExpr,
 			ctx.expr(args[1]),
 			coq.UnitLiteral{})
 	}
-	if isIdent(f.X, "fmt") {
+	if ctx.isBuiltinPkg(f.X, "fmt") {
 		switch f.Sel.Name {
 		case "Println", "Printf":
 			return coq.LoggingStmt{GoCall: ctx.printGo(call)}
 		}
 	}
-	if isIdent(f.X, "sync") {
+	if ctx.isBuiltinPkg(f.X, "sync") {
 		switch f.Sel.Name {
 		case "NewCond":
 			return ctx.newCoqCall("lock.newCond", args)
